@@ -64,6 +64,24 @@ int main() {
                RANGES[k][0], RANGES[k][1], RANGES[k][2], RANGES[k][3]); bad++; }
     }
   }
+  // regions: a straight connector along y=50 (one fixed end segment) is the only bridge between the middle segments of Z-shaped
+  // connectors further left and right; whatever the order in which the connectors were created, none may stay on top of it
+  for (int perm = 0; perm < 6; ++perm) {
+    static const int P[6][3] = {{0,1,2},{0,2,1},{1,0,2},{1,2,0},{2,0,1},{2,1,0}};
+    Router *router = new Router(OrthogonalRouting);
+    router->setRoutingParameter(segmentPenalty, 50); router->setRoutingParameter(idealNudgingDistance, 4);
+    Rectangle r12(Point(50, 0), Point(70, 20)), r13(Point(80, 80), Point(100, 100)), r14(Point(0, 0), Point(20, 20)), r15(Point(30, 80), Point(50, 100));
+    new ShapeRef(router, r12, 12); new ShapeRef(router, r13, 13); new ShapeRef(router, r14, 14); new ShapeRef(router, r15, 15);
+    for (int k = 0; k < 3; ++k) {
+      int which = P[perm][k];
+      if (which == 0) new ConnRef(router, ConnEnd(Point(0, 50)), ConnEnd(Point(100, 50)), 1 + k);
+      else if (which == 1) new ConnRef(router, ConnEnd(Point(60, 15), ConnDirDown), ConnEnd(Point(90, 85), ConnDirUp), 1 + k);
+      else new ConnRef(router, ConnEnd(Point(10, 15), ConnDirDown), ConnEnd(Point(40, 85), ConnDirUp), 1 + k);
+    }
+    router->processTransaction();
+    if (router->existsOrthogonalSegmentOverlap()) { printf("bridge scene, creation order %d%d%d: two connectors run collinear after nudging although the channel is 60 wide and the nudging distance is 4\n", P[perm][0], P[perm][1], P[perm][2]); bad++; }
+    delete router;
+  }
   if (bad) { printf("REPRODUCED: %d violation(s)\n", bad); return 1; }
   printf("not reproduced\n"); return 0;
 }
@@ -154,6 +172,25 @@ def jobs(tier):
                   domain="all doubles as coordinates and limits, every pair of segments of two different connectors (routes of 4 points, 1 to 3 indexes per segment: "
                          "only the first and last index are read), both dimensions; plain harness, routing options/parameters arbitrary",
                   expect=[r'h_overlaps\.assertion']))
+    # ---- the region-building loop of nudgeOrthogonalRoutes: a region handed to the solver is CLOSED under "overlaps" (bounded: <= 4 segments)
+    ngr = slice_func(OC, r'^void ImproveOrthogonalRoutes::nudgeOrthogonalRoutes\(size_t dimension,', "ImproveOrthogonalRoutes::nudgeOrthogonalRoutes")
+    reg = fragment_between(ngr, r'ShiftSegment \*currentSegment = m_segment_list\.front\(\);', r'if \(! justUnifying\)',
+                           "nudgeOrthogonalRoutes [building one region of transitively overlapping segments]")
+    reg_cxx = ("#include <verif_base.h>\n#include <list>\n"
+               'extern "C" bool w_overlaps(void *a, void *b, size_t dim);\n'
+               "namespace Avoid {\n// stand-in for the abstract ShiftSegment: overlapsWith (virtual in the real class) forwards to the harness's relation\n"
+               "class ShiftSegment { public: void *_verif_vptr; size_t dimension; double minSpaceLimit; double maxSpaceLimit;   // the real data members (scanline.h)\n"
+               "    bool overlapsWith(const ShiftSegment *rhs, const size_t dim) const { return w_overlaps((void *)this, (void *)rhs, dim); } };\n"
+               "struct ShiftSegmentList : std::list<ShiftSegment *> {};   // real: typedef std::list<ShiftSegment *> ShiftSegmentList; (goto-cc does not resolve ::iterator through the typedef)\n"
+               "class ImproveOrthogonalRoutes { public: ShiftSegmentList m_segment_list; void verif_region(size_t dimension, ShiftSegmentList& currentRegion); };\n"
+               "void ImproveOrthogonalRoutes::verif_region(size_t dimension, ShiftSegmentList& currentRegion)\n{\n" + reg.text + "\n}\n}\n"
+               'extern "C" void w_region(void *self, size_t dimension, void *region) { ((Avoid::ImproveOrthogonalRoutes *)self)->verif_region(dimension, *(Avoid::ShiftSegmentList *)region); }\n')
+    js.append(Job("region_closed_under_overlap", "B", spec, "h_region", cxx=reg_cxx, defines=["JOB_region"], slices=[ngr, reg], stub_variant="bounded", unwind=14,
+                  flags=["--sat-solver", "cadical"], backend="sat:cadical", timeout=900,
+                  bound="1 to 4 segments in the list, every symmetric overlap relation among them; all loops unwound 14 times with unwinding assertions",
+                  domain="every list of up to 4 segments and every symmetric overlap relation (overlapsWith behind an arbitrary relation)",
+                  expect=[r'h_region\.assertion', r'unwind'], replay=replay_c10,
+                  note="std::list modelled by an array-backed stub (stubs/bounded/list); the fragment re-derives its iterator after every erase"))
     return js
 
 
@@ -166,7 +203,9 @@ TRUSTED = [
 ]
 ASSUMPTIONS = [
     "this is the only place nudging writes a route (by inspection of orthogonal.cpp: the other writers are the router's own path-setting code)",
-    "NOT decided (residue): which segments are built fixed, ordering of shared paths (PtOrderMap), channel computation (min/maxSpaceLimit), overlapsWith grouping, the resulting separation, checkpoints staying on routes",
+    "region_closed_under_overlap is a BOUNDED stand-in (at most 4 segments, std::list modelled by an array-backed stub, overlapsWith an arbitrary symmetric relation): "
+    "the region handed to the solver is the reference segment's whole component under 'overlaps'",
+    "NOT decided (residue): which segments are built fixed, ordering of shared paths (PtOrderMap), channel computation (min/maxSpaceLimit), the constraints generated inside a region, the resulting separation, checkpoints staying on routes",
 ]
 EXPLANATION = ("Write-back kernel of nudging under contract: a fixed segment writes nothing (empty frame); the written position is the solver position clamped into "
-               "[minSpaceLimit,maxSpaceLimit]; the loop body writes exactly one coordinate of one indexed route point and keeps the route's size; bounded whole-function check.")
+               "[minSpaceLimit,maxSpaceLimit]; the loop body writes exactly one coordinate of one indexed route point and keeps the route's size; bounded whole-function check; bounded check that a nudging region is closed under overlap.")
